@@ -40,3 +40,4 @@ INVARIANT SavedIsEntry
 INVARIANT NestedRestore
 INVARIANT ThreadIsolation
 INVARIANT FreshThreadDefaults
+PROPERTY LawsOnEveryStep
